@@ -19,6 +19,16 @@ type Explorer struct {
 	// Bound per kind: maximal total cost of deviations of that kind in one
 	// execution.  A kind that is absent is unbounded.
 	Bound map[string]int
+	// ChargeFree: kinds for which an alternative the runtime offers for free (a switch
+	// while the running thread is blocked) is charged one deviation as well: the bound
+	// then limits ALL departures from the default execution, which keeps trees with many
+	// runnable threads finite in practice (plain deviation bounding instead of
+	// preemption bounding).
+	ChargeFree map[string]bool
+	// ShardN > 1 splits one tree over several tasks: this explorer only follows the
+	// alternatives of the root execution at points whose index is ShardI modulo ShardN
+	// (deeper levels are explored completely).  Every shard runs the root execution.
+	ShardN, ShardI int
 	// TotalBound (>0): maximal total cost over all bounded kinds in one execution.
 	TotalBound int
 	// MaxExec caps the number of executions (0 = none); hitting it is reported.
@@ -49,6 +59,10 @@ type Execution struct {
 	Exec   *vrt.Exec
 	Result any
 	Panic  any // value the body panicked with (ExitPanic, runtime error …), nil otherwise
+	// NoExpand, set by Check, tells the explorer not to explore the executions that
+	// extend this one by further deviations (used when this execution already violates:
+	// its extensions are explained by it).
+	NoExpand bool
 }
 
 // Choices renders the choice list compactly, e.g. "sched:1/3 intn:2/4".
@@ -145,14 +159,23 @@ func (e *Explorer) explore(prefix []vrt.Point) {
 		return
 	}
 	e.Check(x)
+	if x.NoExpand {
+		return
+	}
 	pts := x.Exec.Points
 	spent := map[string]int{}
 	total := 0
 	for i := 0; i < len(pts); i++ {
 		p := pts[i]
+		if p.Cost == 0 && e.ChargeFree[p.Kind] {
+			p.Cost = 1
+		}
 		if i >= len(prefix) {
 			b, bounded := e.Bound[p.Kind]
 			within := !bounded || p.Cost == 0 || (spent[p.Kind]+p.Cost <= b && (e.TotalBound <= 0 || total+p.Cost <= e.TotalBound))
+			if within && len(prefix) == 0 && e.ShardN > 1 && i%e.ShardN != e.ShardI {
+				within = false
+			}
 			if within {
 				for alt := 1; alt < p.N; alt++ {
 					np := make([]vrt.Point, i+1)
